@@ -32,6 +32,15 @@ def run(ctx):
             if a['kind'] == 'Storage':
                 a['cost_store'] = a.get('cost_store') or 0.375
     specs += dst
+    # take periods whose values are numpy arrays (the documented form), on objects that were set up before (other prices)
+    arr = gen.gen_many(ctx.seed, n // 4, dict(CFG, kinds={'ExtendedTransport': 4, 'Contract': 3, 'MultiCommodityContract': 1, 'SimpleContract': 1}, nodes=(2, 3), n_assets=(1, 3)), 'c02arr_')
+    for k_, sp in enumerate(arr):
+        for a in sp['assets']:
+            for key in ('max_take', 'min_take'):
+                if isinstance(a.get(key), dict):
+                    a[key]['as_array'] = True
+        sp['opts']['warmup'] = 'solve' if k_ % 2 else 'setup'
+    specs += arr
     specs = ctx.specs(specs)
     res = C.run_impl('reference', specs)
     parts = C.run_impl('assets', specs)
